@@ -129,6 +129,10 @@ func (d pwDist) inverse(y float64) float64 {
 type pwLattice struct {
 	pwDist
 	lo, step float64
+	// inexact: Bounds are "reasonable" only (as the interface allows for a
+	// distribution with a long tail): the top end is the first lattice point
+	// holding 99.9% of the mass, the points above it lie outside
+	inexact bool
 }
 
 func (d pwLattice) Step() float64 { return d.step }
@@ -143,7 +147,16 @@ func (d pwLattice) PMF(x float64) float64 {
 	}
 	return d.v[i-1] - d.l[i-1]
 }
-func (d pwLattice) Bounds() (float64, float64) { return d.xs[0], d.xs[len(d.xs)-1] }
+func (d pwLattice) Bounds() (float64, float64) {
+	if d.inexact {
+		for i, v := range d.v {
+			if v >= 0.999 && i < len(d.xs)-1 {
+				return d.xs[0], d.xs[i]
+			}
+		}
+	}
+	return d.xs[0], d.xs[len(d.xs)-1]
+}
 
 // countingDist wraps a built-in distribution to count CDF calls (M-step)
 // while hiding any InvCDF/Rand method of the wrapped value.
@@ -225,7 +238,10 @@ func c07User(w *mon.W, c c07Case) {
 	if c.Step > 0 {
 		w.Hit("user-defined-DiscreteDist")
 		name = fmt.Sprintf("user-defined discrete distribution on %g+i*%g: points %v, CDF values %v", c.Xs[0], c.Step, c.Xs, c.V)
-		dist = pwLattice{d, c.Xs[0], c.Step}
+		dist = pwLattice{d, c.Xs[0], c.Step, c.BoundIn}
+		if _, h := dist.Bounds(); c.BoundIn && h < c.Xs[len(c.Xs)-1] {
+			w.Hit("lattice-Bounds-inside-the-support")
+		}
 		if p, e := mon.Call(func() { inv = stats.InvCDF(dist) }); p {
 			w.Violate("panic", fmt.Sprintf("%s: InvCDF panicked: %v", name, e), c)
 			return
@@ -517,6 +533,11 @@ func c07Rand(w *mon.W, c c07Case) {
 		pw := pwDist{c.Xs, c.L, c.V, c.BoundIn, nil}
 		base, left = pw, pw.cdfLeft
 		name = fmt.Sprintf("piecewise CDF xs=%v l=%v v=%v", c.Xs, c.L, c.V)
+		if c.Step > 0 {
+			base = pwLattice{pwDist{c.Xs, c.L, c.V, false, nil}, c.Xs[0], c.Step, c.BoundIn}
+			name = fmt.Sprintf("user-defined discrete distribution on %g+i*%g: points %v, CDF values %v", c.Xs[0], c.Step, c.Xs, c.V)
+			w.Hit("rand-user-defined-DiscreteDist")
+		}
 		w.Hit("rand-user")
 	} else {
 		cc := c
@@ -533,7 +554,7 @@ func c07Rand(w *mon.W, c c07Case) {
 	}
 	N := c.Draws
 	gen := stats.Rand(base)
-	draw := func() []float64 {
+	draw := func(gen func(*rand.Rand) float64) []float64 {
 		r := rand.New(rand.NewSource(int64(c.Seed)))
 		out := make([]float64, N)
 		for i := range out {
@@ -541,13 +562,19 @@ func c07Rand(w *mon.W, c c07Case) {
 		}
 		return out
 	}
-	var a []float64
+	var a, b []float64
 	w.EvalN("Rand", int64(2*N))
-	if p, e := mon.Call(func() { a = draw() }); p {
+	if p, e := mon.Call(func() { a = draw(gen) }); p {
 		w.Violate("panic", fmt.Sprintf("%s: Rand panicked: %v", name, e), c)
 		return
 	}
-	b := draw()
+	// the second run uses a generator obtained afresh from Rand(dist): the
+	// draws are a function of the distribution and the source, not of
+	// anything fixed when a particular generator was built
+	if p, e := mon.Call(func() { b = draw(stats.Rand(base)) }); p {
+		w.Violate("panic", fmt.Sprintf("%s: Rand panicked: %v", name, e), c)
+		return
+	}
 	for i := range a {
 		if math.Float64bits(a[i]) != math.Float64bits(b[i]) {
 			w.Violate("rand-deterministic", fmt.Sprintf("%s: draw %d differs between identically seeded sources: %g vs %g", name, i, a[i], b[i]), c)
@@ -718,10 +745,62 @@ func c07Ys(rng *mon.Rand, levels []float64) []mon.F {
 	return mon.Fs(ys)
 }
 
+// c07GenLattice draws a user-defined discrete distribution on a lattice
+// lo + i*step; every third one has a long geometric tail and Bounds holding
+// only 99.9% of it.
+func c07GenLattice(rng *mon.Rand, i int) c07Case {
+	step := rng.Pick(0.1, 0.2, 0.3, 3, 1e-3, 0.7, 2.5, 1e-6, 1, 0.5, 1e4)
+	lo := rng.Pick(0, -step*float64(rng.Range(1, 9)), step*float64(rng.Range(1, 50)), rng.Uniform(-5, 5), -1e3*step)
+	n := rng.Range(2, 12)
+	c := c07Case{Kind: "user", Step: step}
+	tot := 0.0
+	mass := make([]float64, n)
+	for k := range mass {
+		mass[k] = rng.Uniform(0.05, 1)
+		if rng.Intn(4) == 0 {
+			mass[k] = 0 // a lattice point without mass
+		}
+		tot += mass[k]
+	}
+	if tot == 0 {
+		mass[0], tot = 1, 1
+	}
+	cum := 0.0
+	for k := 0; k < n; k++ {
+		c.Xs = append(c.Xs, lo+float64(k)*step)
+		c.L = append(c.L, cum)
+		cum += mass[k] / tot
+		if k == n-1 || cum > 1 {
+			cum = 1
+		}
+		c.V = append(c.V, cum)
+	}
+	c.BoundIn = false
+	if i%3 == 0 {
+		// a long geometric tail, Bounds holding only 99.9% of it
+		c.Xs, c.L, c.V = nil, nil, nil
+		p := rng.Uniform(0.05, 0.4)
+		cum, q := 0.0, 1.0
+		for k := 0; k < 400 && cum < 1; k++ {
+			c.Xs = append(c.Xs, lo+float64(k)*step)
+			c.L = append(c.L, cum)
+			cum = 1 - q*(1-p)
+			q *= 1 - p
+			if q < 1e-17 {
+				cum = 1
+			}
+			c.V = append(c.V, cum)
+		}
+		c.V[len(c.V)-1] = 1
+		c.BoundIn = true
+	}
+	return c
+}
+
 func c07Run(r *mon.Run) {
 	r.Rule("user-defined piecewise CDFs (ramps of slope>=5e-4, jumps, flats, pure step functions; centre anywhere in +-1e6; widths 1e-3..1e3) judged against the analytic generalized inverse; built-ins TDist, BinomialDist, HypergeometicDist, UDist, KDE judged through their own CDF; y uniform, at exact jump/kink levels and their neighbours one ulp away, 1e-300, 1-1e-16, 0, 1 and outside [0,1]; dispatch to own InvCDF/Rand methods; Rand: determinism, DKW bound (alpha=1e-9) on seeded draws, a source whose first variate is 0. Non-trivial = hits a class; distinct by hash of the CDF description.")
 	r.Assume("ramp slopes >= 5e-4 keep the float64 crossing within 2e-13 of the analytic one (tolerance 1e-9 relative, floor 1e-12)", "for built-ins the library's own CDF is the oracle (its accuracy is C05/C06/C02/C12's business)")
-	r.Gate("y-at-jump-or-kink-level", "centre>1e5", "centre<-1e5", "discrete-builtin", "scripted-zero-draw", "y-outside", "y=0-bounds-endpoint", "y=0-minus-inf", "y=1-bounds-endpoint", "y=1-plus-inf", "dispatch", "builtin-t", "builtin-binom", "builtin-hyperg", "builtin-udist", "builtin-kde", "rand-user", "rand-builtin", "pure-step", "unwrapped-builtin", "kde-weighted", "kde-bounded", "kde-delta-kernel", "rand-kde-weighted", "user-defined-DiscreteDist", "rand-nil-source")
+	r.Gate("y-at-jump-or-kink-level", "centre>1e5", "centre<-1e5", "discrete-builtin", "scripted-zero-draw", "y-outside", "y=0-bounds-endpoint", "y=0-minus-inf", "y=1-bounds-endpoint", "y=1-plus-inf", "dispatch", "builtin-t", "builtin-binom", "builtin-hyperg", "builtin-udist", "builtin-kde", "rand-user", "rand-builtin", "pure-step", "unwrapped-builtin", "kde-weighted", "kde-bounded", "kde-delta-kernel", "rand-kde-weighted", "user-defined-DiscreteDist", "rand-nil-source", "rand-user-defined-DiscreteDist", "lattice-Bounds-inside-the-support")
 
 	r.Parallel("user", r.Pick(3000, 40000), func(w *mon.W, i int) {
 		rng := w.Rng
@@ -735,36 +814,16 @@ func c07Run(r *mon.Run) {
 	// user-defined discrete distributions on lattices lo + i*step
 	r.Parallel("user-lattice", r.Pick(600, 6000), func(w *mon.W, i int) {
 		rng := w.Rng
-		step := rng.Pick(0.1, 0.2, 0.3, 3, 1e-3, 0.7, 2.5, 1e-6, 1, 0.5, 1e4)
-		lo := rng.Pick(0, -step*float64(rng.Range(1, 9)), step*float64(rng.Range(1, 50)), rng.Uniform(-5, 5), -1e3*step)
-		n := rng.Range(2, 12)
-		c := c07Case{Kind: "user", Step: step}
-		tot := 0.0
-		mass := make([]float64, n)
-		for k := range mass {
-			mass[k] = rng.Uniform(0.05, 1)
-			if rng.Intn(4) == 0 {
-				mass[k] = 0 // a lattice point without mass
-			}
-			tot += mass[k]
-		}
-		if tot == 0 {
-			mass[0], tot = 1, 1
-		}
-		cum := 0.0
-		for k := 0; k < n; k++ {
-			c.Xs = append(c.Xs, lo+float64(k)*step)
-			c.L = append(c.L, cum)
-			cum += mass[k] / tot
-			if k == n-1 || cum > 1 {
-				cum = 1
-			}
-			c.V = append(c.V, cum)
-		}
-		c.BoundIn = false
+		c := c07GenLattice(rng, i)
 		c.Ys = c07Ys(rng, c.V)
+		if c.BoundIn {
+			// levels between the mass inside Bounds and 1
+			for k := 0; k < 6; k++ {
+				c.Ys = append(c.Ys, mon.F(1-rng.LogUniform(1e-12, 1e-3)))
+			}
+		}
 		c07Judge(w, c)
-		w.Distinct(mon.NewHasher().S("lattice").F(step).Fs(c.Xs).Fs(c.V).Sum())
+		w.Distinct(mon.NewHasher().S("lattice").F(c.Step).Fs(c.Xs).Fs(c.V).Sum())
 	})
 	builtin := func(rng *mon.Rand, k int) c07Case {
 		c := c07Case{}
@@ -848,7 +907,9 @@ func c07Run(r *mon.Run) {
 	r.Parallel("rand", r.Pick(48, 160), func(w *mon.W, i int) {
 		rng := w.Rng
 		var c c07Case
-		if i%2 == 0 {
+		if i%8 == 4 {
+			c = c07GenLattice(rng, i/8)
+		} else if i%2 == 0 {
 			c = c07GenUser(rng, i%6 == 0)
 		} else {
 			c = builtin(rng, i/2)
